@@ -126,6 +126,31 @@ theorem C_frame (f : Nat) :
         · cases h
         · cases h; rfl
       | brk => rw [C.exec] at h; cases h; rfl
+      | call y g ps ls rt body ret args =>
+        rw [C.exec] at h
+        obtain ⟨vs, _, h⟩ := bind_ok h
+        obtain ⟨st1, _, h⟩ := bind_ok h
+        split at h
+        · cases h
+        · cases ret with
+          | none =>
+            cases y with
+            | none => cases h; rfl
+            | some y => cases h
+          | some e =>
+            cases y with
+            | none =>
+              dsimp only at h
+              obtain ⟨v, _, h⟩ := bind_ok h
+              cases h; rfl
+            | some y =>
+              dsimp only at h
+              obtain ⟨v, _, h⟩ := bind_ok h
+              obtain ⟨s', hs', h⟩ := bind_ok h
+              cases h
+              obtain ⟨t, _, rfl⟩ := assignTo_ok hs'
+              simp only [Stmt.assigned, Option.toList, List.mem_singleton] at hx
+              exact get_set_ne _ _ hx
     · intro te i n b st st' h x hx hxi
       rw [C.exec.forLoop] at h
       obtain ⟨iv, _, h⟩ := bind_ok h
@@ -179,6 +204,16 @@ theorem trNested_assigned {te : C.TyEnv} {m : Bool} {d : Nat} {s s' : Stmt}
   | write e => rw [trNested] at h; cases h; rfl
   | sleep e => rw [trNested] at h; cases h; rfl
   | brk => rw [trNested] at h; split at h <;> cases h; rfl
+  | call y g ps ls rt body ret args _ =>
+    rw [trNested] at h
+    split at h
+    · split at h
+      · cases h
+      · obtain ⟨b', _, h⟩ := bind_ok h
+        split at h
+        · cases h; rfl
+        · cases h
+    · cases h
 
 /-- inside the fragment every assigned name is declared -/
 theorem okNested_assigned_decl {all : List String} {te : C.TyEnv} {s : Stmt}
@@ -230,5 +265,24 @@ theorem okNested_assigned_decl {all : List String} {te : C.TyEnv} {s : Stmt}
   | write e => intro x hx; simp [Stmt.assigned] at hx
   | sleep e => intro x hx; simp [Stmt.assigned] at hx
   | brk => intro x hx; simp [Stmt.assigned] at hx
+  | call y g ps ls rt body ret args _ =>
+    simp only [Stmt.okNested, Bool.and_eq_true] at h
+    obtain ⟨_, hbody⟩ := h
+    cases hfd : funDecls ps body with
+    | none => rw [hfd] at hbody; cases hbody
+    | some te' =>
+      rw [hfd] at hbody
+      simp only [Bool.and_eq_true] at hbody
+      intro x hx
+      cases y with
+      | none => simp [Stmt.assigned] at hx
+      | some y =>
+        simp only [Stmt.assigned, Option.toList, List.mem_singleton] at hx
+        subst hx
+        cases ret with
+        | none => simp [callRetOk] at hbody
+        | some e =>
+          simp only [callRetOk, Bool.and_eq_true, beq_iff_eq] at hbody
+          rw [hbody.2.2]; rfl
 
 end Reduino.Lemmas.C01
